@@ -473,70 +473,7 @@ def q2(prog, ctx, tag="Q2"):
 # Q3: where the walk along the alignment starts (leading / trailing clip operations are skipped, nothing else)
 # ---------------------------------------------------------------------------
 
-class _NoEval(Exception):
-    pass
-
-
-def _eval(e, env):
-    """Static evaluation of a pure expression over small concrete tuples (finite case analysis, no repository code is run)."""
-    if isinstance(e, ast.Constant):
-        return e.value
-    if isinstance(e, ast.Name):
-        if e.id in env:
-            return env[e.id]
-        raise _NoEval(e.id)
-    if isinstance(e, (ast.List, ast.Tuple, ast.Set)):
-        return [_eval(x, env) for x in e.elts]
-    if isinstance(e, ast.UnaryOp) and isinstance(e.op, ast.USub):
-        return -_eval(e.operand, env)
-    if isinstance(e, ast.UnaryOp) and isinstance(e.op, ast.Not):
-        return not _eval(e.operand, env)
-    if isinstance(e, ast.BinOp) and isinstance(e.op, (ast.Add, ast.Sub)):
-        l, r = _eval(e.left, env), _eval(e.right, env)
-        return l + r if isinstance(e.op, ast.Add) else l - r
-    if isinstance(e, ast.Subscript):
-        return _eval(e.value, env)[_eval(e.slice, env)]
-    if isinstance(e, ast.Call) and isinstance(e.func, ast.Name) and e.func.id == "len" and len(e.args) == 1:
-        return len(_eval(e.args[0], env))
-    if isinstance(e, ast.Attribute):
-        d = dotted(e)
-        if d in env:
-            return env[d]
-        raise _NoEval(d)
-    if isinstance(e, ast.BoolOp):
-        vals = e.values
-        if isinstance(e.op, ast.And):
-            for v in vals:
-                if not _eval(v, env):
-                    return False
-            return True
-        for v in vals:
-            if _eval(v, env):
-                return True
-        return False
-    if isinstance(e, ast.Compare) and len(e.ops) == 1:
-        l, r = _eval(e.left, env), _eval(e.comparators[0], env)
-        op = e.ops[0]
-        table = {ast.Eq: lambda: l == r, ast.NotEq: lambda: l != r, ast.Lt: lambda: l < r, ast.LtE: lambda: l <= r,
-                 ast.Gt: lambda: l > r, ast.GtE: lambda: l >= r, ast.In: lambda: l in r, ast.NotIn: lambda: l not in r}
-        if type(op) in table:
-            return table[type(op)]()
-    raise _NoEval(src(e)[:40])
-
-
-def _exec(stmts, env):
-    for st in stmts:
-        if isinstance(st, ast.Assign) and len(st.targets) == 1 and isinstance(st.targets[0], ast.Name):
-            env[st.targets[0].id] = _eval(st.value, env)
-        elif isinstance(st, ast.AugAssign) and isinstance(st.target, ast.Name) and isinstance(st.op, (ast.Add, ast.Sub)):
-            v = _eval(st.value, env)
-            env[st.target.id] = env[st.target.id] + v if isinstance(st.op, ast.Add) else env[st.target.id] - v
-        elif isinstance(st, ast.If):
-            _exec(st.body if _eval(st.test, env) else st.orelse, env)
-        elif isinstance(st, (ast.Expr, ast.Pass)):
-            continue
-        else:
-            raise _NoEval(src(st)[:40])
+from ..engine.staticeval import NoEval as _NoEval, evaluate as _eval, execute as _exec  # noqa: E402
 
 
 def q3(prog, ctx, members):
